@@ -72,11 +72,13 @@ func genCfg(r *rand.Rand) Cfg {
 	seen := map[string]bool{}
 	for n := r.Intn(4); n > 0; n-- {
 		id := pick(r, idPool[1:])
-		if c.Icpt == "lower" {
-			id = lowerASCII(id) // initial records are stored as given; keep them reachable
+		// initial records are kept under the interceptor's image of their id: no two with one image
+		key := id
+		if c.Icpt != "" {
+			key = namedIcpt(c.Icpt)(id)
 		}
-		if !seen[id] {
-			seen[id] = true
+		if !seen[key] {
+			seen[key] = true
 			c.Init = append(c.Init, id+"~"+genMsg(r))
 		}
 	}
